@@ -100,6 +100,42 @@ def run_impl(source, syntax, ns_spec, world_kw=None, call='kw',
     return out, world, ns
 
 
+def perturbed(ns_spec):
+    """Another namespace of the same shape: truth values flipped, texts
+    changed, some names missing.  Used to render a compiled template once
+    before the rendering that is checked, so that anything a rendering
+    leaves behind on the compiled objects shows."""
+    def flip(v):
+        if isinstance(v, bool):
+            return not v
+        if isinstance(v, str):
+            return '' if v else 'p'
+        if isinstance(v, (int, float)):
+            return 0 if v else 1
+        if v is None:
+            return 'was-none'
+        if isinstance(v, dict) and v.get('t') == 'rec':
+            d = dict(v)
+            d['ret'] = flip(v.get('ret'))
+            d.pop('sets', None)
+            return d
+        return v
+    out = {}
+    for i, (k, v) in enumerate(sorted(ns_spec.items())):
+        if i % 7 == 3 and not isinstance(v, dict):
+            continue                      # this name is missing
+        out[k] = flip(v)
+    return out
+
+
+def run_impl_twice(source, syntax, ns_spec, world_kw=None):
+    """Like run_impl, but the template object has been rendered before with
+    a perturbed namespace."""
+    t = make_template(source, syntax)
+    run_impl(source, syntax, perturbed(ns_spec), template=t)
+    return run_impl(source, syntax, ns_spec, world_kw, template=t)
+
+
 def run_model(ast, ns_spec, world_kw=None, level=0, guard_level=200):
     world = World(return_exc=model.ModelReturn, **(world_kw or {}))
     ns = build_ns(ns_spec, world, 'model')
